@@ -117,3 +117,10 @@ Definition okg (noeq : bool) (c : char) : bool :=
 Definition lits_okg (noeq : bool) (ps : list piece) : bool :=
   forallb (fun p => match p with PLit c => okg noeq c | PRef _ _ => true end) ps.
 Definition gate_ok (ps : list piece) : bool := lits_okg true ps || lits_okg false ps.
+
+(** ... for a DOUBLE-quoted word (since 8dc686a the alias-definition exemption does not apply there) a single quote is
+    harmless: only an open paren, or an equals sign together with a backquote, can make an exemption shape. *)
+Definition okq (noeq : bool) (c : char) : bool := negb (c =? 40) && (if noeq then negb (c =? 61) else negb (c =? 96)).
+Definition lits_okq (noeq : bool) (ps : list piece) : bool :=
+  forallb (fun p => match p with PLit c => okq noeq c | PRef _ _ => true end) ps.
+Definition gate_ok_dq (ps : list piece) : bool := lits_okq true ps || lits_okq false ps.
